@@ -185,6 +185,37 @@ static void rounding(unsigned long long& unit)
 		for(int i = 0; i < 3; i++) if(!mc::same_bits(rv[i], Round(v[i], 2))) ok = false;
 		for(int i = 0; i < 2; i++) for(int j = 0; j < 2; j++) if(!mc::same_bits(rm[i][j], Round(M[i][j], 2))) ok = false;
 		if(!ok) fail("round", "vector_matrix_overloads", "overload_differs_from_scalar", "Round(Vector/Matrix) is not element-wise Round");
+		// every shape 1..4 x 1..4 (and vectors of size 1..5), every digits 1..7: the overloads are element-wise Round
+		const double vals[] = {123.456789, -0.00123456789, 9.9951, 1e10 + 7, -5.5e-20, 0.0, 77777.77, -1.0};
+		for(unsigned d = 1; d <= 7; d++)
+		{
+			for(int n = 1; n <= 5; n++)
+			{
+				std::vector<double> e(n);
+				for(int i = 0; i < n; i++) e[i] = vals[(i * 3 + d) % 8];
+				Vector w(e), rw;
+				g_cases++;
+				if(mc::library_exits([&]() { rw = Round(w, d); })) { fail("round", "Vector,n=" + std::to_string(n), "terminated_process", "Round(Vector) ended the process"); continue; }
+				bool o2 = rw.Size() == (unsigned)n;
+				for(int i = 0; o2 && i < n; i++) o2 = mc::same_bits(rw[i], Round(e[i], d));
+				if(!o2) fail("round", "Vector,n=" + std::to_string(n) + ",digits=" + std::to_string(d), "overload_differs_from_scalar", "Round(Vector) is not element-wise Round");
+			}
+			for(int r = 1; r <= 4; r++)
+				for(int c = 1; c <= 4; c++)
+				{
+					std::vector<std::vector<double>> e(r, std::vector<double>(c));
+					for(int i = 0; i < r; i++)
+						for(int j = 0; j < c; j++) e[i][j] = vals[(i * 5 + j * 3 + d) % 8];
+					Matrix A(e), RA;
+					g_cases++;
+					std::string key = "Matrix," + std::to_string(r) + "x" + std::to_string(c) + ",digits=" + std::to_string(d);
+					if(mc::library_exits([&]() { RA = Round(A, d); })) { fail("round", key, "terminated_process", "Round(Matrix) ended the process"); continue; }
+					bool o3 = RA.Rows() == (unsigned)r && RA.Columns() == (unsigned)c;
+					for(int i = 0; o3 && i < r; i++)
+						for(int j = 0; j < c; j++) if(!mc::same_bits(RA[i][j], Round(e[i][j], d))) o3 = false;
+					if(!o3) fail("round", key, "overload_differs_from_scalar", "Round(Matrix) is not element-wise Round");
+				}
+		}
 	}
 }
 
